@@ -7,6 +7,8 @@ random tag data for ONE member tag of every class of the smaller calculator, fee
 (tags2preene; the larger calculator back-fills the rest), and compare
  (a) the two one-solute/one-vacancy torus chains (same torus): rate matrices must be identical (1e-10) - the premise
      "same network" checked on the implementation's own classes;
+ (a') exact tier: for dyadic tag data on single-Wyckoff crystals the two chains are compared as integer edge multisets inside
+     Coq (`permb` over Z) - the premise of C07_same_network_same_L decided exactly;
  (b) all four tensors of Lij with the real Green function: 1e-7 relative (same GF calculator settings; the range
      dependence enters only through the Dyson truncation which is exact when there is no interaction outside);
 crystals with 1- and 2-site bases, several Wyckoff sets, with and without origin-state vector bases."""
@@ -21,8 +23,46 @@ META = dict(
 )
 
 import numpy as np
-from . import gen, vm, tcommon
+from fractions import Fraction
+from . import gen, vm, tcommon, exact
 from .c01 import polar_projector
+from .lib import CoqFailure, coq_Z, coq_nat, coq_list
+
+NET_IMPORTS = """From Coq Require Import List ZArith Bool Arith.
+From Onsager Require Import Base.OrdRing Base.Instances Model.Net Model.Interstitial Model.NetMaps.
+Import ListNotations.
+Local Open Scope Z_scope.
+Definition mk (a : nat * nat * Z * list Z) : edge Zring := let '(s, t, c, d) := a in mkEdge (K:=Zring) s t c d.
+Definition runeq (c : list (nat * nat * Z * list Z) * list (nat * nat * Z * list Z)) : bool :=
+  let '(n1, n2) := c in permb (K:=Zring) (map mk n1) (map mk n2).
+"""
+
+
+def dyadic_tagdata(d, rng):
+    """dyadic prefactors, zero energies, one random member tag per class"""
+    ud = {}
+    for typ in ("vacancy", "solute", "solute-vacancy", "omega0", "omega1", "omega2"):
+        for tags in d.tags[typ]:
+            ud[rng.choice(tags)] = (rng.randint(4, 16) / 8., 0.0)
+    return ud
+
+
+def exact_edges(d, th, M):
+    """integer-scalable exact edge list (x, y, cond Fraction, [ds, dv] lattice coordinates) of the torus chain"""
+    crys = d.crys; invmap = d.invmap
+    args = d.preene2betafree(1.0, **th)
+    c = vm.torus_chain(d, *args, M=M, solute=True)
+    F = lambda x: Fraction(float(x))
+    out = []
+    for (x, y, rate, ds, dv, kind, k) in c.edges:
+        cf = F(th["preS"][invmap[c.states[x][0]]]) * F(th["preT0"][k]) if kind == 0 else (F(th["preT1"][k]) if kind == 1 else F(th["preT2"][k]))
+        fl = c.w[x] * rate
+        ZV = sum(F(th["preV"][invmap[i]]) for i in range(d.N)); ZS = sum(F(th["preS"][invmap[i]]) for i in range(d.N))
+        if abs(fl - float(cf) * d.N * d.N / float(ZV * ZS)) > 1e-11 * abs(fl): return None   # LIMB value not dyadic-exact
+        dl = [gen.rationalize(v) for v in np.dot(crys.invlatt, ds)] + [gen.rationalize(v) for v in np.dot(crys.invlatt, dv)]
+        if any(v is None for v in dl): return None
+        out.append((x, y, cf, dl))
+    return out
 
 
 def tagdata(d, rng):
@@ -102,4 +142,36 @@ def run(ck):
                     ck.violation("Nthermo %d vs %d differ by %.3g in the span of the site vector basis" % (N1, N2, max(errs)), doc, key="c07-originstate-vectorbasis")
                 else:
                     ck.violation("Nthermo %d vs %d give different tensors (L0vv,Lss,Lsv,L1vv rel. diffs %s)" % (N1, N2, ["%.2g" % e for e in errs]), doc, key="c07-Lij")
+    # ---- exact tier: the two chains are the SAME edge multiset, decided in Coq over Z (single-Wyckoff crystals, dyadic tag data,
+    # zero energies: every rate, including the LIMB back-fill sqrt(p*p) = p, is an exact dyadic rational)
+    import re
+    terms, metas = [], []
+    for nm, (N1, N2) in [("square", (1, 2)), ("rect", (1, 2)), ("tria", (1, 2))] + ([] if ck.quick else [("rect", (2, 3)), ("honeycomb", (1, 2))]):
+        crys, chem = gen.named(nm)
+        cut, sl, jn = gen.percolating_network(crys, chem, rng, maxshell=1, maxjumps=30)
+        d1 = vm.make(crys, chem, sl, jn, N1); d2 = vm.make(crys, chem, sl, jn, N2)
+        ud = dyadic_tagdata(d1, rng)
+        t1 = d1.tags2preene(ud); t2 = d2.tags2preene(ud)
+        M = vm.min_torus(d2)
+        e1 = exact_edges(d1, t1, M); e2 = exact_edges(d2, t2, M)
+        if e1 is None or e2 is None: continue
+        sc = exact.lcm_den([e[2] for e in e1 + e2]); sd = exact.lcm_den([v for e in e1 + e2 for v in e[3]])
+        def enc(e): return "(%s, %s, %s, %s)" % (coq_nat(e[0]), coq_nat(e[1]), coq_Z(int(e[2] * sc)), coq_list([coq_Z(int(v * sd)) for v in e[3]]))
+        terms.append("(%s, %s)" % (coq_list([enc(e) for e in e1]), coq_list([enc(e) for e in e2])))
+        metas.append(dict(crystal=nm, pair=[N1, N2], M=M, edges=len(e1), tags={k: list(v) for k, v in ud.items()}))
+    try:
+        res = []
+        for a in range(0, len(terms), 2):
+            out = ck.coq_cases("neteq_%d" % a, "Eval vm_compute in (map runeq %s)." % coq_list(terms[a:a + 2]), NET_IMPORTS)
+            res += re.findall(r"true|false", out[out.index("="):].split(":")[0])
+        if len(res) != len(terms): raise CoqFailure("could not parse permb output")
+    except CoqFailure as e:
+        ck.broken_proof = "correspondence (chain equality over Z): %s" % e
+        res = []
+    for m, r in zip(metas, res):
+        ck.case(key=("exact-chain", m["crystal"], m["pair"], sorted(m["tags"].items())), nontrivial=True, kind="exact-chain:%s-%s" % (m["crystal"], m["pair"]),
+                sample={"tier": "exact-chain-equality", "crystal": m["crystal"], "pair": m["pair"], "M": m["M"], "edges": m["edges"]})
+        if r != "true":
+            ck.violation("exact tier: the chains of the (%d) and (%d) calculators are not the same edge multiset" % tuple(m["pair"]), m, key="c07-exact-chain")
+    ck.extra["traces_validated_against_impl"] = len(res)
     ck.extra["pairs_compared"] = n
